@@ -331,18 +331,83 @@ class JobRaceRun(PairRaceRun):
             info.get("a"), info.get("b"), info.get("preempted_at"), info.get("site")), self.name, dict(decisions=list(I.path.taken), script=list(self.log)), model, detail))
 
 
+class TickRaceRun(PairRaceRun):
+    """A timer tick races with a client action: the timed act is open and past its limit; the client completes it while the tick handler
+    (Runtime's on_tick closure -> Process::do_tick -> the timeout hook) runs.  Either side may be the pre-empted one."""
+
+    def run(self, snaps=None):
+        I = self.I
+        phase = self.restore(snaps)
+        if phase is None:
+            W = self.boot()
+            W.drain()
+            phase = 0
+            self.save(snaps, phase)
+        W = self.W
+        timed = [t for t in self.open_irqs() if (self.node_attr(t["nid"]) or (None, {}))[1].get("timeout")]
+        if not timed:
+            return
+        t = timed[0]
+        W.clock += 10 * 24 * 3600 * 1000   # far past every limit used by the skeletons
+        client_is_a = I.path.choose(2, "pre-empted-side") == 0
+
+        def client():
+            return W.action(self.pid, t["tid"], "Next", dict(self.outputs_for(t)))
+
+        def ticker():
+            W.tick()
+            return ok(UNIT)
+
+        a_fn, b_fn = (client, ticker) if client_is_a else (ticker, client)
+        R = Race(b_fn, lambda idx: I.path.choose(2, "preempt") == 1)
+        I.race = R
+        R.active = True
+        try:
+            ra = a_fn()
+            R.finish_a(I)
+        finally:
+            R.active = False
+            I.race = None
+        self.race_info = dict(a=("client completes %s" % t["nid"]) if client_is_a else "timer tick", b="timer tick" if client_is_a else ("client completes %s" % t["nid"]),
+                              preempted_at=R.preempted_at, site=R.preempt_site)
+        self.log.append(dict(tick_race=t["nid"], options=dict(self.outputs_for(t)), preempted_side="client" if client_is_a else "tick", preempted_at=R.preempted_at,
+                             action="Next", accepted=True, target=t["nid"], target_state="Interrupt"))
+        W.drain()
+        self.res.witnesses += 1
+        self.at_quiescence("race")
+        self.answer_all()
+        self.at_end()
+        if len(self.res.samples) < 3:
+            self.res.samples.append(dict(scenario=self.name, tick_race=t["nid"], preempted_side="client" if client_is_a else "tick", lock_operations_of_A=R.count,
+                                         preempted_at=R.preempted_at, final=[(x["nid"], x["state"]) for x in self.tasks()]))
+
+    def viol(self, role, desc, detail=None):
+        I = self.I
+        if "timeout-handler-open-under-closed-act" in role:
+            return  # the sequential order "tick, then the client closes the act" is C03's recorded finding, not a matter of the race
+        info = getattr(self, "race_info", {})
+        self.res.violations.append(Violation(self.prop, "tick-vs-action:" + role, desc + " [A = %s, B = %s at A's lock operation %s, %s]" % (
+            info.get("a"), info.get("b"), info.get("preempted_at"), info.get("site")), self.name, dict(decisions=list(I.path.taken), script=list(self.log)), {}, detail))
+
+
 def observe_pair(name, cfg, prop, script, zmodel, attempts=60):
     """Two OS threads released by one barrier, each completing one of the two acts, on the real engine (up to `attempts` fresh runs: the window is
     narrow); then everything open is answered and the same flow oracles are evaluated on what the engine shows.  Returns the union of roles seen."""
     from . import replay
     from .flow import ReplayRun, concrete_inputs as flow_inputs
     model, inputs = scen.catalogue()[name]
-    pair = [e for e in script if "race_pair" in e or "burst" in e]
+    pair = [e for e in script if "race_pair" in e or "burst" in e or "tick_race" in e]
     if not pair:
         return None, None
     pair = pair[0]
     sc_inputs = flow_inputs(inputs, zmodel)
-    if "burst" in pair:
+    if "tick_race" in pair:
+        # one thread completes the timed act, another one runs the tick handler, released by one barrier; the engine clock is far past the limit
+        steps = [{"op": "start", "mid": model["id"], "inputs": sc_inputs},
+                 {"op": "clock", "offset": 10 * 24 * 3600 * 1000},
+                 {"op": "tick_race", "nid": pair["tick_race"], "options": pair["options"]},
+                 {"op": "answer_all", "max": 12, "options": {}}]
+    elif "burst" in pair:
         # the client completes the two acts back to back without waiting: the scheduler's worker thread is busy with the first while the second arrives
         steps = [{"op": "start", "mid": model["id"], "inputs": sc_inputs},
                  {"op": "burst", "nids": pair["burst"], "options": pair["options"]},
@@ -367,7 +432,7 @@ def observe_pair(name, cfg, prop, script, zmodel, attempts=60):
         rr = None
         for view in views:
             rr = ReplayRun(name, cfg, prop, view, model)
-            rr.log = []
+            rr.log = [e for e in script if e.get("action")]
             for o in cfg.oracles:
                 f = getattr(rr, "q_" + o, None)
                 if f:
@@ -395,7 +460,7 @@ def run_pair_race(I, name, cfg_kw, prop):
     snaps = {}
 
     def one(I, res):
-        r = (JobRaceRun if cfg_kw.get("with_scheduler") else PairRaceRun)(I, res, name, cfg, prop)
+        r = (TickRaceRun if cfg_kw.get("with_tick") else JobRaceRun if cfg_kw.get("with_scheduler") else PairRaceRun)(I, res, name, cfg, prop)
         orig = r.install_event_monitor
 
         def inst(rebind=False):
@@ -405,12 +470,12 @@ def run_pair_race(I, name, cfg_kw, prop):
         r.install_event_monitor = inst
         r.run(snaps)
 
-    res = explore(I, ("job-race:" if cfg_kw.get("with_scheduler") else "pair-race:") + name, one, max_paths=cfg.max_paths, seed=cfg_kw.get("seed", 0))
+    res = explore(I, ("tick-race:" if cfg_kw.get("with_tick") else "job-race:" if cfg_kw.get("with_scheduler") else "pair-race:") + name, one, max_paths=cfg.max_paths, seed=cfg_kw.get("seed", 0))
     if res.violations:
         from mirsym.harness import load_known
         known = load_known()
         v0 = res.violations[0]
-        union, info = observe_pair(name, cfg, prop, v0.decisions["script"], v0.model, attempts=250 if cfg_kw.get("with_scheduler") else 60)
+        union, info = observe_pair(name, cfg, prop, v0.decisions["script"], v0.model, attempts=250 if (cfg_kw.get("with_scheduler") or cfg_kw.get("with_tick")) else 60)
         keep = []
         dropped = set()
         for v in res.violations:
